@@ -51,10 +51,13 @@ type WriteSet struct {
 	globals map[*ssa.Global]bool
 	alloc   bool
 	all     bool
+	// slice variables assigned something other than append(self, ...), a fresh
+	// allocation, nil or a re-slicing of themselves
+	nonAppend map[*Cell]bool
 }
 
 func newWriteSet() *WriteSet {
-	return &WriteSet{cells: map[*Cell]bool{}, heap: map[string]*heapWrite{}, globals: map[*ssa.Global]bool{}}
+	return &WriteSet{cells: map[*Cell]bool{}, heap: map[string]*heapWrite{}, globals: map[*ssa.Global]bool{}, nonAppend: map[*Cell]bool{}}
 }
 
 func (w *WriteSet) addHeap(name, ref string) {
